@@ -55,7 +55,8 @@ def describe(tier):
              'Transition = adding one layer.' % (n, KINDS, KEYS, LAYERS),
         nontrivial='at least two layers define the key (an override actually happens).',
         bounds=dict(pairs=n, subsets=8),
-        assumptions=['the reference fold reads the *contents* of the built-in tables from a snapshot taken at start-up; their '
+        assumptions=['every state is preceded by a resolution of the same syntax name under the other abbreviation type (and the '
+                     'same global config)', 'the reference fold reads the *contents* of the built-in tables from a snapshot taken at start-up; their '
                      'precedence is what is checked', 'a `text: None` entry written into the call config by expand() equals absent '
                      '(C08 covers it)', 'syntax name equal to the type name is left unspecified'],
         explanation='Every lattice state is built with the real Config(user, global) and through emmet.expand and compared with '
@@ -159,6 +160,12 @@ def check_state(typ, syn, kind, key, subset, top='MARKER'):
     user, glob = build(typ, syn, kind, key, subset, top)
     u0, g0 = copy.deepcopy(user), copy.deepcopy(glob)
     exp = fold(typ, syn, kind, user, glob)
+    # the same syntax name resolved under the other abbreviation type first: nothing of that resolution may be reused
+    other = 'stylesheet' if typ == 'markup' else 'markup'
+    try:
+        Config({'type': other, 'syntax': syn or DEFAULT_SYNTAX[typ]}, copy.deepcopy(g0))
+    except Exception:
+        pass
     try:
         cfg = Config(user, glob)
     except Exception as e:
